@@ -59,6 +59,7 @@ type Gen struct {
 	modset   func(r string) string // "ref r may be modified by the top function" ; nil = nothing
 	modRefs  []string
 	entrySeq, cutSeq int
+	paramTerms map[string]string // parameter name -> SMT constant (replay of counterexamples)
 	modRanges []modRange
 	modKindsOnly []modTarget // per modifies target: the heap kinds its type has (loop heads and hard cuts havoc only those)
 	recvSliceInv func(st *State) []string
